@@ -43,17 +43,17 @@ type awStep struct {
 }
 
 type awArgs struct {
-	S     string `json:"s"`
-	A     int    `json:"a"`
-	B     int    `json:"b"`
-	I     int    `json:"i"`
-	N     int    `json:"n"`
-	Oc    string `json:"oc"`
-	First int    `json:"first"`
-	Name  string `json:"name"`
-	Num   int    `json:"num"`
-	P     string `json:"p"`
-	ID    string `json:"id"`
+	S      string `json:"s"`
+	A      int    `json:"a"`
+	B      int    `json:"b"`
+	I      int    `json:"i"`
+	N      int    `json:"n"`
+	Oc     string `json:"oc"`
+	First  int    `json:"first"`
+	Name   string `json:"name"`
+	Num    int    `json:"num"`
+	P      string `json:"p"`
+	ID     string `json:"id"`
 	PubOld string `json:"pubold"`
 	PubNew string `json:"pubnew"`
 	Old    string `json:"old"`
@@ -115,7 +115,7 @@ type awWorld struct {
 	npub   int
 	idx    int
 	pub    []byte // current public passphrase
-	silent bool // the behaviour left what the model describes (by design of the harness, not a difference)
+	silent bool   // the behaviour left what the model describes (by design of the harness, not a difference)
 	diffs  [][4]interface{}
 	n      int
 }
